@@ -139,6 +139,12 @@ class Gen(object):
             cand = siblings[-1]["id"].swapcase()                 # a sibling key that differs only in case
         elif roll < 0.24 and siblings and "\n" not in siblings[-1]["id"]:
             cand = siblings[-1]["id"] + "x"                      # a sibling id extended (one UID a prefix of the other)
+        elif roll < 0.36 and self.all_ids:
+            # an id that already occurs ELSEWHERE in the forest (another parent / another level): ids are unique among siblings
+            # only, e.g. top-level `Tools` next to the add-on `Server-Tools`; readers must tell variants apart by UID, not by id
+            free = sorted(i for i in self.all_ids if i not in used)
+            if free:
+                return free[r.randrange(len(free))]
         while cand is None or cand in used or cand in self.all_ids:
             # the leading letter varies, so the insertion order of siblings differs from every sorted order
             cand = "%s%d%s" % (r.choice(["V", "a", "Z", "b", "0", "m"]), counter[0], r.choice(["", "x", "Z", "q"]))
